@@ -374,3 +374,24 @@ func init() {
 	mutant("configure-server-skips-defaults", "server-construction", "configure.go", "	cnf.defaults()\n\n	s2 := &Server{", "	s2 := &Server{")
 	mutant("preface-partial-accepted", "server-construction", "http2.go", "	if err == nil && n == prefaceLen {", "	if err == nil || n == prefaceLen {")
 }
+
+// Variants for client-request-shape.
+func init() {
+	mutant("client-path-not-emitted", "client-request-shape", "conn.go", "	hf.SetBytes(StringPath, req.URI().RequestURI())\n	enc.AppendHeaderField(h, hf, true)\n", "	hf.SetBytes(StringPath, req.URI().RequestURI())\n")
+	mutant("client-authority-from-header", "client-request-shape", "conn.go", "	hf.SetBytes(StringAuthority, req.URI().Host())", "	hf.SetBytes(StringAuthority, req.Header.Host())")
+	mutant("client-field-not-lowered", "client-request-shape", "conn.go", "		hf.SetBytes(k, v)\n		ToLower(hf.key)\n", "		hf.SetBytes(k, v)\n")
+	mutant("client-field-not-emitted", "client-request-shape", "conn.go", "		enc.AppendHeaderField(h, hf, false)\n	}\n\n	h.SetPadding(false)", "	}\n\n	h.SetPadding(false)")
+	mutant("client-one-octet-body-dropped", "client-request-shape", "conn.go", "	hasBody := bodyStream || len(req.Body()) != 0", "	hasBody := bodyStream || len(req.Body()) > 1")
+	mutant("client-endstream-always", "client-request-shape", "conn.go", "	h.SetEndStream(!hasBody)", "	h.SetEndStream(true)")
+	mutant("client-stream-id-step", "client-request-shape", "conn.go", "	atomic.StoreUint32(&c.nextID, id+2)", "	atomic.StoreUint32(&c.nextID, id+1)")
+	mutant("client-slot-never-returned", "client-request-shape", "conn.go", "	if c.takeReq(stream) {\n		atomic.AddInt32(&c.openStreams, -1)\n	}", "	c.takeReq(stream)")
+	mutant("client-hasmore-one-octet", "client-request-shape", "conn.go", "	return len(pb.body) > 0 || (pb.stream != nil && !pb.drained)", "	return len(pb.body) > 1 || (pb.stream != nil && !pb.drained)")
+	mutant("client-idle-test-one", "client-request-shape", "conn.go", "		if n == 0 && !end {\n			return nil\n		}", "		if n <= 1 && !end {\n			return nil\n		}")
+	mutant("client-conn-window-not-debited", "client-request-shape", "conn.go", "		c.connWindow -= int32(n)\n", "")
+	mutant("client-short-read-dropped", "client-request-shape", "conn.go", "	n, err := pb.stream.Read(buf)\n	if n > 0 {", "	n, err := pb.stream.Read(buf)\n	if n > 1 {")
+	mutant("client-declared-length-ignored", "client-request-shape", "conn.go", "	if pb.size >= 0 && pb.read >= pb.size {", "	if pb.size >= 0 && pb.read > pb.size {")
+	mutant("client-handshake-credit", "client-request-shape", "conn.go", "Handshake(true, c.bw, &c.current, c.maxWindow-65535)", "Handshake(true, c.bw, &c.current, c.maxWindow+65535)")
+	mutant("client-handshake-no-ack", "client-request-shape", "conn.go", "			stRes.SetAck(true)\n", "")
+	mutant("client-handshake-framesize-ignored", "client-request-shape", "conn.go", "			c.maxFrameSize = c.serverS.MaxFrameSize()\n", "")
+	mutant("client-window-constants-differ", "client-request-shape", "conn.go", "	nc.current.SetMaxWindowSize(1 << 20)", "	nc.current.SetMaxWindowSize(1 << 21)")
+}
